@@ -128,7 +128,7 @@ pub fn run(spec: &HistSpec, tier: Tier, seed: u64, replay: Option<Value>) -> i32
     }
     drop(wk0);
 
-    let cfg = LoopCfg { cases: tier.pick(spec.quick_cases, spec.thorough_cases), workers: crate::workers(), max_shrink_execs: 400, max_violations: 12 };
+    let cfg = LoopCfg { cases: tier.pick(spec.quick_cases, spec.thorough_cases), workers: crate::workers(), max_shrink_execs: 400, max_violations: std::env::var("FVH_MAX_VIOL").ok().and_then(|s| s.parse().ok()).unwrap_or(12) };
     let cmd = spec.cmd;
     let max_len = tier.pick(spec.max_len, spec.max_len * 3);
     crate::driver::run_cases(
